@@ -542,6 +542,10 @@ class IRGenerator:
 
         params = []
         for param in item.params:
+            if isinstance(param, AstVoidField):
+                raise InvalidSpec(
+                    'Parameter {} cannot be Void.'.format(quote(param.name)),
+                    param.lineno, param.path)
             if param.annotations:
                 raise InvalidSpec(
                     'Annotations cannot be applied to parameters of annotation types',
